@@ -237,7 +237,12 @@ def explore(spec, *, bound=None, merge=True, max_execs=None, max_seconds=None, p
                 return prev is not None and prev >= (_inf if bound is None else bound - used)
             results = (run_once(t[0], t[1], t[2], t[3], False, _stop if merge else None) for t in tasks)
         nxt = []
+        cut_short = False
         for (prefix, _), r in zip(frontier, results):
+            if max_seconds is not None and pool is None and st.evaluations % 64 == 0 and time.time() - t0 > max_seconds and gen > 0:
+                # the time cap is also honoured inside a generation (in-process exploration only: runs are produced lazily)
+                cut_short = True
+                break
             st.evaluations += 1
             if "error" in r:
                 raise MachineryError(f"{spec[1]}{spec[2]}: {r['error']} prefix={r['prefix']}\n{r.get('tb','')}")
@@ -295,6 +300,12 @@ def explore(spec, *, bound=None, merge=True, max_execs=None, max_seconds=None, p
             if stop_on_violation and st.violations:
                 nxt = []
                 break
+        if cut_short:
+            st.caps.append(f"max_seconds={max_seconds} hit inside generation {gen} ({len(frontier)} entries); "
+                           f"every execution with <= {gen - 1} non-default choices was explored")
+            st.capped_depths.append(gen - 1)
+            st.exhaustive = False
+            break
         if max_seconds is not None and time.time() - t0 > max_seconds and nxt:
             st.caps.append(f"max_seconds={max_seconds} hit with {len(nxt)} unexplored frontier entries; "
                            f"every execution with <= {gen} non-default choices was explored")
